@@ -370,12 +370,14 @@ func (c *FnCtx) addressOf(st *State, e ast.Expr, site ast.Node) *Term {
 		c.assumptionsUsed["&x.f modelled as a pointer to a copy of the field (no writes through it)"] = true
 		r := c.allocRef(st, "fieldptr")
 		c.storeCell(st, r, c.typeOf(y), val)
+		st.assume(mkEq(mk("dyntype", "TypeTag", r), c.typeTag(types.NewPointer(c.typeOf(y)))))
 		return r
 	case *ast.IndexExpr:
 		val := c.eval(st, y)
 		c.assumptionsUsed["&s[i] modelled as a pointer to a copy of the element (no writes through it)"] = true
 		r := c.allocRef(st, "elemptr")
 		c.storeCell(st, r, c.typeOf(y), val)
+		st.assume(mkEq(mk("dyntype", "TypeTag", r), c.typeTag(types.NewPointer(c.typeOf(y)))))
 		return r
 	case *ast.StarExpr:
 		return c.eval(st, y.X)
